@@ -343,20 +343,17 @@ def r054(report, g, lm, pm, both, slash_tokens, prevs, table):
     return rule
 
 
-def r055(report, lm):
-    """the manual peek for `/` must see through exactly the characters the
-    underlying lexer ignores"""
-    rule = report.rule('R05.5', 'the `/` peek skips exactly the white space '
-                       'the lexer ignores (INITIAL and regex state)',
-                       floor=2)
+def peek_skip_set(lm):
+    """the characters Lexer._token looks past before testing for `/`:
+    the loop `while char in <string>` / `while char == <char>`"""
     methods = lexer_methods(lm)
     token_fn = methods.get('_token')
+    if token_fn is None:
+        raise AnalysisError('Lexer._token vanished')
     skip = None
     for n in ast.walk(token_fn):
         if isinstance(n, ast.While) and isinstance(n.test, ast.Compare) and \
-                len(n.test.ops) == 1 and isinstance(
-                    n.test.ops[0], ast.In) and isinstance(
-                    n.test.left, ast.Name):
+                len(n.test.ops) == 1 and isinstance(n.test.left, ast.Name):
             c = n.test.comparators[0]
             val = None
             if isinstance(c, ast.Constant):
@@ -372,11 +369,26 @@ def r055(report, lm):
                     val = lm.module.fold_name(c.id, 'Lexer')
                 except Exception:
                     val = None
-            if isinstance(val, str):
+            if isinstance(val, (tuple, list, set, frozenset)) and all(
+                    isinstance(x, str) for x in val):
+                val = ''.join(val)
+            if isinstance(val, str) and isinstance(
+                    n.test.ops[0], (ast.In, ast.Eq)):
                 skip = val
     if skip is None:
         raise AnalysisError('Lexer._token: the white-space peek loop '
-                            '`while char in <constant string>` was not found')
+                            '`while char in <constant string>` was not '
+                            'found')
+    return skip
+
+
+def r055(report, lm):
+    """the manual peek for `/` must see through exactly the characters the
+    underlying lexer ignores"""
+    rule = report.rule('R05.5', 'the `/` peek skips exactly the white space '
+                       'the lexer ignores (INITIAL and regex state)',
+                       floor=2)
+    skip = peek_skip_set(lm)
     ignore = lm.ignore.get('INITIAL', '')
     # line terminators are tokens of their own (handled by the loop)
     missing = sorted(set(ignore) - set(skip) - set('\n\r\u2028\u2029'))
@@ -387,6 +399,11 @@ def r055(report, lm):
                'handed to the INITIAL lexer and read as a division' % (
                    skip, ' '.join('U+%04X' % ord(c) for c in missing)),
                where='lexers/es5.py:Lexer._token')
+    extra = sorted(set(skip) - set(ignore))
+    rule.check(not extra, 'peek skips characters the lexer does not ignore',
+               'Lexer._token peek set %r vs t_ignore' % skip,
+               'the peek looks past %r which the lexer treats as '
+               'significant' % extra, where='lexers/es5.py:Lexer._token')
     rign = lm.ignore.get('regex', '')
     missing = sorted(set(skip) - set(rign))
     rule.check(not missing, 'regex state ignore covers the peek set',
@@ -394,6 +411,50 @@ def r055(report, lm):
                'characters skipped by the peek but not ignored in the '
                'regex state: %r' % missing,
                where='lexers/es5.py:Lexer.t_regex_ignore')
+    return rule
+
+
+def r056(report, lm):
+    """the shortcut that hands a `/` to the INITIAL lexer without asking
+    the division/regex question must apply to comment starts only"""
+    rule = report.rule('R05.6', '`/` bypasses the division/regex decision '
+                       'only when it starts a comment', floor=20)
+    methods = lexer_methods(lm)
+    token_fn = methods['_token']
+    test = None
+    for n in ast.walk(token_fn):
+        if isinstance(n, ast.If):
+            names = {x.id for x in ast.walk(n.test)
+                     if isinstance(x, ast.Name)}
+            if {'char', 'next_char'} <= names:
+                test = n
+    if test is None:
+        raise AnalysisError('Lexer._token: the test on char / next_char '
+                            'that precedes the division decision was not '
+                            'found')
+    body_calls = ast.unparse(test.body[0]) if test.body else ''
+    chars = [chr(o) for o in range(0x20, 0x7f)] + ['\n', '\xa0', 'é']
+    for c in chars:
+        ev = Evaluator(lm.module, 'Lexer', methods, {})
+        env = {'char': '/', 'next_char': c}
+        got = ev.truth(ev.expr(test.test, env), test.test)
+        want = c in ('/', '*')
+        rule.check(got == want, 'bypass for /%s' % c,
+                   '`/` followed by %r' % c,
+                   'a `/` followed by %r %s the division/regex decision; '
+                   'only `//` and `/*` (comments) may bypass it: a regular '
+                   'expression literal starting with %r is read as an '
+                   'operator' % (c, 'bypasses' if got else 'does not bypass',
+                                 c),
+                   where='lexers/es5.py:Lexer._token')
+    # and every non-`/` character goes to the INITIAL lexer
+    for c in ('a', '(', '"', '1'):
+        ev = Evaluator(lm.module, 'Lexer', methods, {})
+        got = ev.truth(ev.expr(test.test, {'char': c, 'next_char': '/'}),
+                       test.test)
+        rule.check(got, 'non-slash %s' % c, 'character %r' % c,
+                   'a character other than `/` enters the division/regex '
+                   'decision')
     return rule
 
 
@@ -415,6 +476,7 @@ def run(report, index, tier):
     r053(report, g, lm, only_div, only_re, headers)
     r054(report, g, lm, pm, both, slash_tokens, prevs, table)
     r055(report, lm)
+    r056(report, lm)
     report.not_decided.append(
         'paren-stack bookkeeping for arbitrarily deep nesting beyond the '
         'explored contexts (runtime stack discipline)')
